@@ -268,6 +268,17 @@ impl MetricValue for LyingScaleBytes {
     type Unit = u::Kilobyte;
 }
 
+/// promises Seconds, writes an UNTAGGED number (what a newtype delegating to an integer does)
+struct LyingUntagged;
+impl Value for LyingUntagged {
+    fn write(&self, writer: impl ValueWriter) {
+        writer.metric([Observation::Unsigned(5)], Unit::None, [], MetricFlags::empty())
+    }
+}
+impl MetricValue for LyingUntagged {
+    type Unit = u::Second;
+}
+
 struct LyingNone;
 impl Value for LyingNone {
     fn write(&self, writer: impl ValueWriter) {
@@ -371,6 +382,9 @@ fn misc(rng: &mut Rng, rep: &Report) {
     let l_same: WithUnit<LyingProbe, u::Second> = WithUnit::from(LyingProbe);
     let l_none: WithUnit<LyingNone, u::Megabyte> = WithUnit::from(LyingNone);
     let l_none2: WithUnit<LyingNone, u::None> = WithUnit::from(LyingNone);
+    let l_untagged: WithUnit<LyingUntagged, u::Millisecond> = WithUnit::from(LyingUntagged);
+    let l_untagged_same: WithUnit<LyingUntagged, u::Second> = WithUnit::from(LyingUntagged);
+    let l_untagged_opt: WithUnit<Option<LyingUntagged>, u::Microsecond> = WithUnit::from(Some(LyingUntagged));
     let l_scale_t: WithUnit<LyingScaleTime, u::Microsecond> = WithUnit::from(LyingScaleTime);
     let l_scale_t_same: WithUnit<LyingScaleTime, u::Second> = WithUnit::from(LyingScaleTime);
     let l_scale_b: WithUnit<LyingScaleBytes, u::Gigabyte> = WithUnit::from(LyingScaleBytes);
@@ -381,6 +395,9 @@ fn misc(rng: &mut Rng, rep: &Report) {
         ("promised Seconds, wrote Bytes, declared Seconds (identity conversion)", record_value(&l_same)),
         ("promised unitless, wrote Seconds, declared Megabytes (identity conversion)", record_value(&l_none)),
         ("promised unitless, wrote Seconds, declared unitless (identity conversion)", record_value(&l_none2)),
+        ("promised Seconds, wrote an untagged number, declared Milliseconds", record_value(&l_untagged)),
+        ("promised Seconds, wrote an untagged number, declared Seconds (identity conversion)", record_value(&l_untagged_same)),
+        ("promised Seconds, wrote an untagged number, behind Option, declared Microseconds", record_value(&l_untagged_opt)),
         ("promised Seconds, wrote Milliseconds (same kind, other scale), declared Microseconds", record_value(&l_scale_t)),
         ("promised Seconds, wrote Milliseconds, declared Seconds (identity conversion)", record_value(&l_scale_t_same)),
         ("promised Kilobytes, wrote Megabytes, declared Gigabytes", record_value(&l_scale_b)),
